@@ -447,10 +447,15 @@ class Check:
             first = {sig(ev) for (_, _, ev) in res["bad"]}
             for f in files:
                 _silent_remove(f)
-            stats2, _ = harness(hargs, race=race, env=env, timeout=timeout)
-            res2 = judge(module, stats2["files"], par=par, prop=self.prop, xmx=xmx, mode=mode)
-            again = [(f, i, ev) for (f, i, ev) in res2["bad"] if sig(ev) in first]
-            log("[confirm] %d of %d divergent events reproduced in a fresh process" % (len(again), len(res2["bad"])))
+            for attempt in range(3):    # (behaviour that depends on the Go scheduler / allocator may need more than one try)
+                stats2, _ = harness(hargs, race=race, env=env, timeout=timeout)
+                res2 = judge(module, stats2["files"], par=par, prop=self.prop, xmx=xmx, mode=mode)
+                again = [(f, i, ev) for (f, i, ev) in res2["bad"] if sig(ev) in first]
+                log("[confirm] %d of %d divergent events reproduced in a fresh process" % (len(again), len(res2["bad"])))
+                if again or res2["bad"] or attempt == 2:
+                    break
+                for f in stats2["files"]:
+                    _silent_remove(f)
             if not again and not res2["bad"]:
                 raise Machinery("%d divergent events did not reproduce in a fresh process" % len(res["bad"]))
             res["bad"] = again if again else res2["bad"]
